@@ -210,6 +210,13 @@ fn arg_sets() -> Vec<(u8, Vec<u8>, Vec<u8>)> {
         (30, ramp(64, 0), ramp(32, 0)),
         (0, vec![], vec![9, 9, 9, 9, 9, 9]),
         (0, vec![], vec![1; 65]),
+        // over the short capacity in the raw form, but the normalized form and the run data would fit
+        (0, vec![], vec![7; 33]),
+        (0, vec![], vec![7; 35]),
+        (0, vec![], (0..56).map(|k| 1 + (k / 7) as u8).collect()),
+        (0, vec![7; 64], vec![7; 64]),
+        // every run entry in use (no terminator left in the run data)
+        (0, (0..64).map(|k| 1 + (k / 4) as u8).collect(), (0..32).map(|k| 1 + (k / 4) as u8).collect()),
     ]
 }
 /// array argument sets: (log, bh1 array 64, bh2 array 64 (cut to the type), len1, len2)
@@ -1034,7 +1041,7 @@ pub fn run(ctx: &Ctx) -> Report {
     rep.set("exhaustive_scope", "all action sequences up to the depth bound over the stated menu (depth-bounded, not closed)");
     rep.set(
         "rule",
-        "register file with one object per type (4 plain, 2 dual, compare target, position array); menu: parse 10 texts (valid, run-heavy, capacity, long block hash 2, raw-overflowing by one run / by ordinary characters after a run, invalid) into 6 registers; new_from_internals / _near_raw / _raw / init_from_internals_raw with 10 argument sets each (in-contract, symbol 64 / 255 / 200, length over capacity, non-zero tail, un-normalised data for normalising types, invalid block size / log); normalize_in_place; 24 conversions between registers with previously used destinations; dual init / expand; compare-target init from 4 sources; position array init / clear; generator results.  Depth-1 sweep of the full menu from 4 base states + BFS to the depth bound.  Sweeps: every checked constructor form of the 6 types with EVERY byte value 0..=255 at three positions (middle of block hash 1, block hash 2, last position of a full block hash 2 / first tail byte of the array forms), from a populated register file; position array init_from over every length 0..=70 and lengths around 128 / 256 / 320 / 512 / 65536 and symbols {64,65,127..129,191,192,254,255} at the first / middle / last position, on arrays that already hold a string: in-contract arguments give an array representing the argument, refused ones leave a valid array.  Out-of-contract constructor calls may panic (counted) but must never leave an invalid object.",
+        "register file with one object per type (4 plain, 2 dual, compare target, position array); menu: parse 10 texts (valid, run-heavy, capacity, long block hash 2, raw-overflowing by one run / by ordinary characters after a run, invalid) into 6 registers; new_from_internals / _near_raw with 15 and _raw / init_from_internals_raw with 10 argument sets each (in-contract, symbol 64 / 255 / 200, length over capacity, non-zero tail, un-normalised data for normalising types, invalid block size / log); normalize_in_place; 24 conversions between registers with previously used destinations; dual init / expand; compare-target init from 4 sources; position array init / clear; generator results.  Depth-1 sweep of the full menu from 4 base states + BFS to the depth bound.  Sweeps: every checked constructor form of the 6 types with EVERY byte value 0..=255 at three positions (middle of block hash 1, block hash 2, last position of a full block hash 2 / first tail byte of the array forms), from a populated register file; position array init_from over every length 0..=70 and lengths around 128 / 256 / 320 / 512 / 65536 and symbols {64,65,127..129,191,192,254,255} at the first / middle / last position, on arrays that already hold a string: in-contract arguments give an array representing the argument, refused ones leave a valid array.  Out-of-contract constructor calls may panic (counted) but must never leave an invalid object.",
     );
     rep
 }
